@@ -421,6 +421,16 @@ pub fn random_settings(rng: &mut Rng, allow_faer: bool) -> DefaultSettings<f64> 
         s.tol_gap_rel = t;
         s.tol_feas = *rng.choose(&[1e-6, 1e-7, 1e-8, 1e-9]);
     }
+    if rng.bool(0.35) {
+        // infeasibility tolerances, independently of each other (they default to the same value,
+        // which would hide a mix-up between them)
+        s.tol_infeas_abs = rng.logpos(-10.0, -2.0);
+        s.tol_infeas_rel = rng.logpos(-10.0, -4.0);
+        s.reduced_tol_infeas_abs = s.tol_infeas_abs * rng.logpos(-4.0, -1.0);
+        s.reduced_tol_infeas_rel = (s.tol_infeas_rel * rng.logpos(1.0, 4.0)).min(1e-2);
+        s.tol_ktratio = rng.logpos(-6.0, 2.0);
+        s.reduced_tol_ktratio = (s.tol_ktratio * 100.0).min(1e3);
+    }
     if rng.bool(0.3) {
         s.equilibrate_enable = false;
     } else if rng.bool(0.4) {
